@@ -122,6 +122,7 @@ func cleanupPods(client client.Client, logger logr.Logger, status *datadoghqv1al
 
 func deletePodSlice(client client.Client, logger logr.Logger, podsToDelete []*corev1.Pod) []error {
 	var errs []error
+	var errsLock sync.Mutex
 	var wg sync.WaitGroup
 	for id, pod := range podsToDelete {
 		if pod.DeletionTimestamp != nil {
@@ -135,7 +136,9 @@ func deletePodSlice(client client.Client, logger logr.Logger, podsToDelete []*co
 			logger.Info("cleanupPods delete pod", "pod_name", pod.Name)
 			err := client.Delete(context.TODO(), pod)
 			if err != nil {
+				errsLock.Lock()
 				errs = append(errs, err)
+				errsLock.Unlock()
 			}
 		}(id)
 	}
